@@ -88,7 +88,34 @@ RandomTrees ==
             ct == Types8[(H3(Seed, i, 23) % 8) + 1]
         IN  Prog3("rt-" \o ToString(i), ct, lt, rt, RandE(3 + (i % 3), 1000 + i), <<"random">>, "std")]
 
-Programs == Depth1Bin \o Depth1Un \o Depth1Cond \o Depth2 \o RandomTrees
+\* the C type of a 64-bit result does not show through the int64_t / uint64_t observers (nothing is widened): for every
+\* operator and every operand pair with a 64-bit operand the result is also used under >> 1 and < 0, whose meaning
+\* depends on the signedness of the result type
+Wide == {i \in 1..64 : Types8[((i - 1) \div 8) + 1].w = 64 \/ Types8[((i - 1) % 8) + 1].w = 64}
+WideSeq == SetToSeq(Wide)
+RevOps == <<"+", "-", "*", "&", "|", "^", "<<", ">>">>
+Reveal64All ==
+    [i \in 1..(Len(RevOps) * Len(WideSeq) * 2) |->
+        LET o == RevOps[((i - 1) % Len(RevOps)) + 1]
+            pi == WideSeq[(((i - 1) \div Len(RevOps)) % Len(WideSeq)) + 1]
+            lt == Types8[((pi - 1) \div 8) + 1]
+            rt == Types8[((pi - 1) % 8) + 1]
+            wrap == (i - 1) \div (Len(RevOps) * Len(WideSeq))
+            inner == Bin(o, Var("a"), IF o \in {"<<", ">>"} THEN Bin("&", Var("b"), NumN(7)) ELSE Var("b"))
+            e == IF wrap = 0 THEN Bin(">>", inner, NumN(1)) ELSE Bin("<", inner, NumN(0))
+        IN  Prog2("rv-" \o ToString(i), lt, rt, e, <<"reveal64", o>>, "pairs")]
+Reveal64 == IF Tier = "thorough" THEN Reveal64All ELSE [i \in 1..(Len(Reveal64All) \div 2) |-> Reveal64All[2 * i - (i % 2)]]
+\* the same for ?: (the result type is the common type of the arms)
+RevealCond ==
+    [i \in 1..(Len(WideSeq) * 2) |->
+        LET pi == WideSeq[((i - 1) % Len(WideSeq)) + 1]
+            lt == Types8[((pi - 1) \div 8) + 1]
+            rt == Types8[((pi - 1) % 8) + 1]
+            inner == Cond(Var("c"), Var("a"), Var("b"))
+            e == IF i <= Len(WideSeq) THEN Bin(">>", inner, NumN(1)) ELSE Bin("<", inner, NumN(0))
+        IN  Prog3("rvc-" \o ToString(i), U8, lt, rt, e, <<"reveal64", "?:">>, "pairs")]
+
+Programs == Depth1Bin \o Depth1Un \o Depth1Cond \o Depth2 \o RandomTrees \o Reveal64 \o RevealCond
 
 VARIABLE x
 Init == x = JsonSerialize(IOEnv.GEN_OUT, Programs)
